@@ -37,7 +37,14 @@ MANIFEST = dict(
          "document, or ValueError and the keys of some section are not contiguous; every per-section temp_document of "
          "an accepted document is an accepted single-section state, C01_sections_accepted) and for the figure-only "
          "model (C01_encodeF_total: an accepted figure document encodes, no refusal), with `acceptedM` / `acceptedF` "
-         "tied to the real constructors in both directions in the same way.",
+         "tied to the real constructors in both directions in the same way. Props/C01totalhdr.lean reads the quantifier's "
+         "header clause on the constructed state: a header row whose width vector (own or inherited) has at least as "
+         "many entries as the row has cells is inside the quantifier under every column removal "
+         "(C01_header_widths_cover: the removal slice is taken only for a row with one cell per displayed column and "
+         "never leaves fewer entries than cells), so a row naming every ORIGINAL column under page_by / subline_by must "
+         "encode; the encoder correspondence and the well-formedness oracle run a header-variation class (1-3 explicit "
+         "rows, 1 … original columns + 1 cells each, widths inherited / per original / per displayed column / per cell, "
+         "every column-removal strategy, single-section, multi-section, nested header lists) on every run.",
     note="Totality is a theorem about the encoder MODEL (byte-exact against rtf_encode() on every generated document, "
          "exceptions included); of the real encoder it is observed on the configuration product (exceptions other than "
          "the documented ValueError are violations). Configurations the constructors accept outside the quantifier "
@@ -51,7 +58,9 @@ MANIFEST = dict(
     design="7/C01",
 )
 
-RULE = ("configurations from the product: strategy × header mode (default, explicit, multi-row, none, as_colheader=False) "
+RULE = ("configurations from the product: strategy × header mode (default, explicit, multi-row, none, as_colheader=False, "
+        "varied = 1-3 explicit rows with 1 … original column count + 1 cells each × widths inherited / per original column / "
+        "per displayed column / per cell, written without regard to the columns page_by / subline_by remove) "
         "× title/subline/footnote/source/page header/footer presence × as_table × placements × orientation/paper size × "
         "nrow × page_by/subline_by/group_by/new_page/pageby_row/pageby_header × attribute shapes × integer and "
         "half-point sizes × cell kinds (padded strings, ints, floats, nulls, non-ASCII); multi-section and figure "
@@ -149,6 +158,36 @@ def to_docg(s: str):
 
 # ----------------------------------------------------------------------------- generator
 
+def gen_headers_case(rng, k):
+    """the header-variation class inside C01's quantifier: explicit header rows with any number of cells from 1 to the
+    original column count + 1 (spanning, fewer than / exactly / more than the displayed columns, one per ORIGINAL
+    column — still naming the page_by / subline_by columns the table loses), widths inherited from the body or given
+    per original / per displayed column / per cell, 1–3 rows, under every pagination strategy; every row's width vector
+    covers its cells (`in_domain`), so rtf_encode() must succeed on every one of them"""
+    from .. import encodecorr
+
+    geo = c06.rand_geometry(rng)
+    strategy = rng.choice(encodecorr.HV_STRATEGIES + ["plain"])
+    spec, info = laygen.gen_spec(rng, strategy=strategy, n=rng.randint(0, 30), dividers=(k % 5 == 0),
+                                 geometry=geo or None, header_mode="explicit", page_headers=(rng.random() < 0.3),
+                                 ndata=rng.choice([1, 2, 2, 3, 4]), levels=rng.choice([None, 1, 2, 3]))
+    info["expect_error"] = False
+    if strategy != "plain" and rng.random() < 0.5:
+        c09.permute_columns(rng, spec, info)
+    ncols = len(spec["df"]["cols"])
+    if rng.random() < 0.4:
+        spec["body"]["col_rel_width"] = [rng.choice([1, 2, 1.5, 3, 0.7]) for _ in range(ncols)]
+    encodecorr.vary_headers(rng, spec, info, in_domain=True)
+    for a in rng.sample(sorted(c09.ATTRS), rng.randint(0, 3)):
+        g = c09.ATTRS[a]
+        spec["body"][a] = g(rng) if rng.random() < 0.5 or a in ("cell_height", "cell_justification") else \
+            [g(rng) for _ in range(ncols)]
+    if rng.random() < 0.3:
+        c02.mutate_cells(rng, spec, info, convert_off=False)
+    encodecorr.label_headers(spec, info)
+    return spec, info
+
+
 def gen_case(rng, k):
     kind = k % 12
     if kind == 10:
@@ -212,10 +251,12 @@ def gen_case(rng, k):
 
 
 def _worker(args):
-    seed, k, fixed = args
+    seed, k, fixed, *rest = args
     try:
         if fixed is not None:
             spec, info = fixed["spec"], fixed["info"]
+        elif rest and rest[0]:
+            spec, info = gen_headers_case(sub_rng(seed, "c01", "headers", k), k)
         else:
             spec, info = gen_case(sub_rng(seed, "c01", k), k)
         st = docgen.encode(spec)
@@ -367,6 +408,7 @@ def run(res, build):
     res.evaluations += encodetotal.run_more(res, outs)
     n = 420 if res.tier == "quick" else 6000
     jobs = [(res.seed, k, None) for k in range(n)]
+    jobs += [(res.seed, k, None, True) for k in range(n // 5)]      # the header-variation class (`gen_headers_case`)
     cdir = common.CORPUS / "C01"
     if cdir.exists():
         for i, f in enumerate(sorted(cdir.glob("*.json"))):
@@ -395,10 +437,13 @@ def run(res, build):
             nt = (info.get("strategy"), info.get("header_mode"), info.get("footnote"), info.get("source"),
                   str(info.get("placements")), np_, json.dumps(sorted((o["spec"].get("body") or {}).keys())
                                                                if isinstance(o["spec"].get("body"), dict) else "multi"))
+            if info.get("header_mode") == "varied":
+                nt += (str([r[1:3] for r in info.get("header_rows", [])]),)
         res.case(dict(spec=o["spec"], info=info), nt)
         res.count("kind:" + str(info.get("strategy")))
         res.count("header:" + str(info.get("header_mode")))
         res.count("status:" + o["status"])
+        encodecorr.count_header_rows(res, info, prefix="hdrcells:wf")
         judge(res, o, wf.get(i), tree.get(i))
     return common.finish(
         res, build, RULE, known_lines=known_lines, trusted=
